@@ -607,6 +607,21 @@ func genC15(o *cw) {
 			emit(strings.ReplaceAll(f, "%s", uu), "non-ascii")
 		}
 	}
+	// every arithmetic operator over edge operands: fractional, tiny, huge, infinite, NaN, non-numbers
+	nums := []string{"0", "1", "7", "-7", "0.5", ".3", "2.5", "-0.5", "(1 div 4)", "(1 div 0)", "(-1 div 0)", "(0 div 0)",
+		"9007199254740993", "1000000000000000000000", "0.0000001", "count(//*)", "string-length('abcd')", "@x", "'s'", "true()", "-0"}
+	for _, op := range []string{"+", "-", "*", "div", "mod"} {
+		for _, a := range nums {
+			for _, b := range nums {
+				emit(a+" "+op+" "+b, "arith-edge")
+			}
+		}
+		for _, b := range []string{"0.5", ".3", "(1 div 4)", "0", "-0.25", "2.5"} {
+			emit("//*[(@x "+op+" "+b+") = 0]", "arith-edge-pred")
+			emit("//*[(count(*) "+op+" "+b+") >= 0]", "arith-edge-pred")
+			emit("//*[position() "+op+" "+b+" = 0]", "arith-edge-pred")
+		}
+	}
 	for i := 0; i < 2500*o.tier; i++ {
 		emit(soup(o.r, 10), "soup")
 	}
@@ -762,8 +777,29 @@ func damages(s string) [][2]string {
 	return out
 }
 
+// valid expressions whose closing tokens sit in places the random grammar rarely reaches:
+// parenthesised literals (also as the last token), predicates after a primary expression,
+// nested calls closing together
+var c17Corpus = []string{
+	"count(//a) = (2)", "name(//a) = ('a')", "sum(//a/@n) div (2)", "(1)", "('x')", "((1))", "-(1)", "(1 + 2) * (3)",
+	"//a[@n < (10)]", "concat('a', ('b'))", "a[(1)]", "a[('x')]", "substring('abc', (1), (2))", "(1) = (2)", "('a') != ('b')",
+	"(//a | //b)[1]", "(//a)[@x][2]", "(//a)[position() < 3]/b", "count((//a)[@x = 'v']) > 0", "string((//a/b)[last()])",
+	"//r[count((a | b)[c]) = 2]", "concat(name((//a)[1]), '-', 'z')", "(a)[1][2]", "(a/b)[c][d]/e[f]", "id((a)[1])",
+	"not((a)[b = (3)])", "a[b[c[(d)[1]]]]", "string-length(normalize-space(string((a)[1])))", "(a)[(b)[(c)[1]]]",
+	"a | (b)[1]", "(a | b | c)[last()]", "count((a)[1] | (b)[2])", "translate(('a'), ('b'), ('c'))", "a[. = (1) or . = ('x')]",
+}
+
 func genC17(o *cw) {
 	g := &G{r: o.r, predAxes: allAxes}
+	for _, s := range c17Corpus {
+		if s == "id((a)[1])" {
+			continue // id() is not a supported function
+		}
+		o.c("compile", nil, "/", "-", s, "", "valid-corpus", "expect=ok")
+		for _, d := range damages(s) {
+			o.c("compile", nil, "/", "-", d[1], "", d[0], "expect=err")
+		}
+	}
 	for i := 0; i < 160*o.tier; i++ {
 		e := g.validExpr()
 		o.features(e)
